@@ -102,6 +102,7 @@ def characters(tier):
     add(boundaries(t["control"]), "control-boundary")
     add(boundaries(t["strip"]), "strip-boundary")
     add(boundaries(t["nonprint"]), "nonprintable-boundary")
+    add(boundaries(t["urlsplit_removed"] + t["urlsplit_stripped_start"] + t["urlsplit_stripped_end"]), "urlsplit-boundary")
     add(FIXED, "fixed")
     if tier == "thorough":
         for lo, hi in t["control"] + t["strip"] + t["nonprint"]:
@@ -153,7 +154,7 @@ def cases(tier):
                 continue
             yield _case([shape.replace("{X}", ch), shape.replace("{X}", "")], OPTS0, "%s:%s" % (label, name))
     # reserved ASCII characters, escaped (both hex cases) against each other, in every component
-    for cp in RESERVED:
+    for cp in sorted(set(RESERVED + tables()["item_seps"] + tables()["kv_seps"])):
         for name, shape in SHAPES:
             urls = [shape.replace("{X}", x) for x in (esc(cp), esc(cp, True))]
             yield _case(urls, OPTS0, "reserved:%s" % name)
